@@ -305,6 +305,10 @@ pub enum NearKind {
     FieldMode(usize, u8),
     /// flip this bit
     Bit(usize),
+    /// another (valid) FRI option set in the context: folding factor 2^f, remainder degree 2^r - 1, with the
+    /// number of FRI layers and of FRI commitments adjusted to what the new schedule prescribes (by
+    /// repeating / dropping layers), so that the proof stays structurally consistent
+    Schedule(u8, u8),
 }
 
 #[derive(Serialize, Deserialize, Clone, Debug)]
@@ -335,6 +339,13 @@ fn near_one<B: FA, H: ElementHasher<BaseField = B> + Send + Sync>(c: &NearCase, 
             obs.label("near=bit");
             apply(&base.bytes, &base.fields, &Mutation::FlipBit { bit: *bit }).0
         },
+        NearKind::Schedule(f, r) => {
+            obs.label("near=schedule");
+            match reschedule(&base, *f, *r) {
+                Some(b) => b,
+                None => return Ok(()),
+            }
+        },
         NearKind::FieldMode(idx, mode) => {
             obs.label("near=field");
             let cands: Vec<_> = base.fields.iter().filter(|f| f.kind != Kind::Data && f.len <= 9).collect();
@@ -348,6 +359,75 @@ fn near_one<B: FA, H: ElementHasher<BaseField = B> + Send + Sync>(c: &NearCase, 
         },
     };
     hostile::<B, H>(&bytes, &[base.desc.clone()], obs)
+}
+
+/// rewrites the proof for another FRI schedule (see NearKind::Schedule)
+fn reschedule(base: &Baseline, f: u8, r: u8) -> Option<Vec<u8>> {
+    let field = |name: &str| base.fields.iter().find(|x| x.path == name);
+    let o = &base.opts;
+    let lde = base.desc.n() * o.blowup;
+    let folding = 1usize << f.clamp(1, 4);
+    let rem_deg = (1usize << r.min(8)) - 1;
+    let old_layers = fri_schedule(lde, o.blowup, o.folding, o.rem_deg).0;
+    // documented layer count of the new schedule (may be ill-formed for this domain: that is the point)
+    let new_layers = {
+        let max_rem = (rem_deg + 1) * o.blowup;
+        let (mut d, mut l) = (lde, 0usize);
+        while d > max_rem {
+            d /= folding;
+            l += 1;
+        }
+        l
+    };
+    if new_layers > 40 {
+        return None;
+    }
+    let segs = if base.desc.aux.is_some() { 2 } else { 1 };
+    let com = field("commitments")?;
+    let digest = com.len / (segs + 2 + old_layers);
+    if digest == 0 || digest * (segs + 2 + old_layers) != com.len {
+        return None;
+    }
+    let cb = &base.bytes[com.off..com.off + com.len];
+    let mut new_com: Vec<u8> = cb[..digest * (segs + 1)].to_vec();
+    let fri_roots: Vec<&[u8]> = (0..old_layers + 1).map(|i| &cb[digest * (segs + 1 + i)..digest * (segs + 2 + i)]).collect();
+    for i in 0..new_layers {
+        new_com.extend_from_slice(fri_roots[i.min(old_layers.saturating_sub(1)).min(fri_roots.len() - 1)]);
+    }
+    new_com.extend_from_slice(fri_roots[old_layers]);
+    // layers: byte ranges of the serialized FriProofLayers
+    let layer_range = |i: usize| -> Option<(usize, usize)> {
+        let a = field(&format!("fri.layer[{i}].values.len"))?;
+        let b = field(&format!("fri.layer[{i}].paths"))?;
+        Some((a.off, b.off + b.len))
+    };
+    let mut layers: Vec<Vec<u8>> = vec![];
+    for i in 0..new_layers {
+        if old_layers == 0 {
+            // nothing to repeat: a minimal layer with one value byte block
+            layers.push(vec![8, 0, 0, 0, 1, 2, 3, 4, 5, 6, 7, 8, 0, 0, 0, 0]);
+        } else {
+            let (a, b) = layer_range(i.min(old_layers - 1))?;
+            layers.push(base.bytes[a..b].to_vec());
+        }
+    }
+    let nl = field("fri.num_layers")?;
+    let rem_len = field("fri.remainder.len")?;
+    let cl = field("commitments.len")?;
+    let ff = field("context.options.fri_folding")?;
+    let fr = field("context.options.fri_remainder_degree")?;
+    let mut out = base.bytes[..cl.off].to_vec();
+    out[ff.off] = folding as u8;
+    out[fr.off] = rem_deg as u8;
+    out.extend((new_com.len() as u16).to_le_bytes());
+    out.extend(new_com);
+    out.extend_from_slice(&base.bytes[com.off + com.len..nl.off]);
+    out.push(new_layers as u8);
+    for l in layers {
+        out.extend(l);
+    }
+    out.extend_from_slice(&base.bytes[rem_len.off..]);
+    Some(out)
 }
 
 pub fn run(run: &mut Run) {
@@ -388,6 +468,11 @@ pub fn run(run: &mut Run) {
                 cases.push(NearCase { shape: s.clone(), kind: NearKind::FieldMode(idx, mode) });
             }
         }
+        for f in 1..=4u8 {
+            for r in 0..=8u8 {
+                cases.push(NearCase { shape: s.clone(), kind: NearKind::Schedule(f, r) });
+            }
+        }
         if tier == Tier::Thorough {
             for bit in 0..len * 8 {
                 cases.push(NearCase { shape: s.clone(), kind: NearKind::Bit(bit) });
@@ -396,7 +481,7 @@ pub fn run(run: &mut Run) {
     }
     run.enumerate(
         "near-valid-exhaustive",
-        "for a basket of small honest proofs (three fields, with and without auxiliary segment): truncation at every offset, every byte replaced by 0x00/0x01/0x7f/0x80/0xff, every length/count/size/scalar field set to 0/1/max-1/max/+1/-1/*2/a fixed pattern (thorough: also every single-bit flip); non-trivial = the bytes parsed",
+        "for a basket of small honest proofs (three fields, with and without auxiliary segment): truncation at every offset, every byte replaced by 0x00/0x01/0x7f/0x80/0xff, every length/count/size/scalar field set to 0/1/max-1/max/+1/-1/*2/a fixed pattern, every other valid FRI option pair (folding 2..16 x remainder degree 0..255) written into the context with the layer and commitment counts adjusted to the new schedule (thorough: also every single-bit flip); non-trivial = the bytes parsed",
         true,
         cases.into_iter(),
         |c: &NearCase, obs: &mut Obs| crate::dispatch!(c.shape.field, c.shape.hasher, near_one, c, obs),
